@@ -45,6 +45,61 @@ mod verif_c19t {
         kani::cover!(a != b && b != c && a.y == b.y);
     }
 
+    fn cross(a: Point, b: Point, p: Point) -> i64 {
+        (b.x as i64 - a.x as i64) * (p.y as i64 - a.y as i64) - (b.y as i64 - a.y as i64) * (p.x as i64 - a.x as i64)
+    }
+    /// p lies in the closed mathematical triangle (any orientation)
+    fn inside_closed(a: Point, b: Point, c: Point, p: Point) -> bool {
+        let (d1, d2, d3) = (cross(a, b, p), cross(b, c, p), cross(c, a, p));
+        !((d1 < 0 || d2 < 0 || d3 < 0) && (d1 > 0 || d2 > 0 || d3 > 0))
+    }
+    /// necessary condition for p to be a pixel of the Bresenham line between a and b (either direction):
+    /// inside the segment's box and within half a pixel (measured along the minor axis) of the ideal line
+    /// (C17: c17_bresenham_step establishes exactly this bound for every emitted point)
+    fn near_edge(a: Point, b: Point, p: Point) -> bool {
+        let major = (b.x as i64 - a.x as i64).abs().max((b.y as i64 - a.y as i64).abs());
+        p.x >= a.x.min(b.x) && p.x <= a.x.max(b.x) && p.y >= a.y.min(b.y) && p.y <= a.y.max(b.y) && 2 * cross(a, b, p).abs() <= major
+    }
+
+    /// Triangle::contains (non-zero area, bounded because of the Bresenham edge fallback): every point of
+    /// the closed mathematical triangle is accepted; every accepted point is in the closed triangle or
+    /// within half a pixel of one of the three edges (the rasterised outline); nothing outside the
+    /// bounding box is accepted. In particular points on the *extension* of an edge are rejected.
+    fn check_contains(mask: u8) {
+        let nib = || (kani::any::<u8>() & mask) as i32;
+        let (a, b, c) = (Point::new(nib(), nib()), Point::new(nib(), nib()), Point::new(nib(), nib()));
+        kani::assume(cross(a, b, c) != 0);
+        let p = Point::new((kani::any::<u8>() & (2 * mask + 1)) as i32 - 1, (kani::any::<u8>() & (2 * mask + 1)) as i32 - 1);
+        kani::assume(p.x <= mask as i32 + 1 && p.y <= mask as i32 + 1);
+        let t = Triangle::new(a, b, c);
+        let r = t.contains(p);
+        let ins = inside_closed(a, b, c, p);
+        if ins {
+            assert!(r);
+        }
+        if r {
+            assert!(ins || near_edge(a, b, p) || near_edge(b, c, p) || near_edge(c, a, p));
+            assert!(t.bounding_box().contains(p));
+        }
+        kani::cover!(r && !ins);
+        kani::cover!(r && ins && cross(a, b, c) < 0);
+        kani::cover!(!r && t.bounding_box().contains(p) && cross(a, b, p) == 0);
+    }
+
+    //@harness prop=C05,C19 kind=bounded tier=quick class=P bound="vertices in 0..=3 x 0..=3 (edge fallback loops), probe point in -1..=4" timeout=900 fns=src/primitives/triangle/mod.rs::Triangle::contains
+    #[kani::proof]
+    #[kani::unwind(6)]
+    fn c05_triangle_contains() {
+        check_contains(3);
+    }
+
+    //@harness prop=C05,C19 kind=bounded tier=thorough class=P bound="vertices in 0..=7 x 0..=7 (edge fallback loops), probe point in -1..=8" timeout=3000 fns=src/primitives/triangle/mod.rs::Triangle::contains
+    #[kani::proof]
+    #[kani::unwind(10)]
+    fn c05_triangle_contains_thorough() {
+        check_contains(7);
+    }
+
     /// area_doubled / sorted_clockwise: the sign of the doubled area flips when two vertices are swapped
     /// and sorted_clockwise() has a non-negative doubled area (display scale, no overflow)
     //@harness prop=C19 kind=lemma tier=thorough class=P bound="vertices within +-256" timeout=3000 fns=src/primitives/triangle/mod.rs::Triangle::area_doubled;src/primitives/triangle/mod.rs::Triangle::sorted_clockwise
